@@ -138,8 +138,8 @@ class MaintWorld(SysGlobals, CompWorld):
         self.tlog = []
         self.targets = []
         for i, t in enumerate(params['targets']):
-            self.targets.append(HTarget(self, f'T{i}', {k: list(v) for k, v in t['table'].items()},
-                                        {tuple(k.split(':')): tuple(v) for k, v in t.get('nested', {}).items()}))
+            self.targets.append(HTarget(self, f'T{i}', {(k,): list(v) for k, v in t['table'].items()},
+                                        {(k.split(':')[0], (k.split(':')[1],)): tuple(v) for k, v in t.get('nested', {}).items()}))
         self.tags = [tuple(x) for x in params['requests']]     # (target index, tag)
         self.ref = RefMaintainer(INF if cap is None else cap)
         self.costs = 0
@@ -174,6 +174,8 @@ class MaintWorld(SysGlobals, CompWorld):
 
     # ------------------------------------------------------------------ requests (also from inside hooks)
     def request(self, ti, tag, nested=False):
+        # a freshly built tuple per request: equal to earlier tags of the same order, never the same object
+        tag = tuple([str(tag)]) if not isinstance(tag, tuple) else tuple(list(tag))
         t = self.targets[ti]
         n0 = len(self.tlog)
         r = self.m.create_work_order(t, tag)
